@@ -7,6 +7,7 @@ Model: Emboss/Model/Deps.lean (mirrors dependency_checker.py).
 import Emboss.Lemmas.Deps
 import Emboss.Lemmas.TarjanMain
 import Emboss.Lemmas.DepsMore
+import Emboss.Lemmas.GroupsCanon
 namespace Emboss.Deps
 
 /-- Every field of `fields_in_dependency_order` comes after all fields (or runtime
@@ -204,6 +205,21 @@ theorem C15_groups_sorted (comps : List (List Nat)) :
     simpa [cycleGroups] using this
 
 example : cycleGroups [[4, 3], [2, 1, 0], [5]] = [[0, 1, 2], [3, 4], [5]] := by decide
+
+/-- End to end: the emitted error groups (what the user sees, in order) do not depend on
+Python's dict/set iteration order — two dicts with the same edges give the same groups. -/
+theorem C15_output_order_independent (g g' : Graph) (cs cs' : List (List Nat))
+    (he : ∀ a b, Edge g a b ↔ Edge g' a b)
+    (h : findCycles g = .ok cs) (h' : findCycles g' = .ok cs') :
+    cycleGroups cs = cycleGroups cs' := by
+  obtain ⟨h1, _, h3⟩ := C15_tarjan_sccs g cs h
+  obtain ⟨h1', _, h3'⟩ := C15_tarjan_sccs g' cs' h'
+  exact cycleGroups_canonical cs cs'
+    (fun C hC => ⟨(h1 C hC).1, (h1 C hC).2.1.1⟩) (fun C hC => ⟨(h1' C hC).1, (h1' C hC).2.1.1⟩) h3 h3'
+    (C15_order_independent g g' cs cs' he h h')
+    (C15_order_independent g' g cs' cs (fun a b => (he a b).symm) h' h)
+
+example : cycleGroups [[4, 3], [2, 1, 0], [5]] = cycleGroups [[5], [0, 2, 1], [3, 4]] := by decide
 
 /-- `_find_dependencies`: `a` gets an edge to `b` exactly when some reference below `a`
 that is outside attributes — and, for bare references (enum constants), outside atomic
